@@ -326,7 +326,8 @@ copy_sds(int32 sd_in, int32 sd_out, int32 tag, /* tag of input SDS */
          * check for objects too small
          *-------------------------------------------------------------------------
          */
-        if (have_info == 1 && options->trip > 0 && nelms * eltsz < options->threshold) {
+        /* (also when only the global '*' options apply, for which options_get_info returns 0) */
+        if (have_info != FAIL && options->trip > 0 && nelms * eltsz < options->threshold) {
             /* reset to the original values . we don't want to uncompress if it was */
             chunk_flags = chunk_flags_in;
             comp_type   = comp_type_in;
